@@ -22,6 +22,7 @@ mod rfc1982;
 mod rrdp;
 mod rrdpsync;
 mod rtrconn;
+mod rtrclient;
 mod rtrwire;
 mod rtrpacing;
 mod rtrfanout;
@@ -56,6 +57,7 @@ fn main() {
         ("replay", "rtrsession") => rtrsession::replay(rest),
         ("drive", "rtrsession") => rtrsession::drive(rest),
         ("replay", "rtrconn") => rtrconn::replay(rest),
+        ("replay", "rtrclient") => rtrclient::replay(rest),
         ("replay", "rtrwire") => rtrwire::replay(rest),
         ("replay", "rrdp") => rrdp::replay(rest),
         ("replay", "manifest") => manifest::replay(rest),
